@@ -100,6 +100,13 @@ func init() {
 	register(&PropertyRule{ID: "C13", Explain: "structural necessary conditions of C13 (configuration algebra): see DESIGN.md §5 C13", Run: func(c *Check) {
 		c13ConfAlgebra(c)
 	}})
+	register(&PropertyRule{ID: "C14", Explain: "C14 (no internal assertion fires): panic-site ledger and the statically discharged sites only; see DESIGN.md §5 C14", Run: func(c *Check) {
+		c14Panics(c)
+	}})
+	register(&PropertyRule{ID: "C15", Explain: "C15 (convergence): existence of each recovery edge only; see DESIGN.md §5 C15", Run: func(c *Check) {
+		c15Recovery(c)
+		c10AutoLeave(c)
+	}})
 	register(&PropertyRule{ID: "C03", Explain: "structural necessary conditions of C03 (log matching): see DESIGN.md §5 C03", Run: func(c *Check) {
 		gTrunc(c)
 		gStable(c)
